@@ -244,6 +244,11 @@ def rand_ops(rng, plat):
             ops.append(dict(op="FR", expansion=rng.choice([0, 1, 3])))
         elif k < 0.92:
             ops.append(dict(op="X", status=rng.randrange(3), version=rng.randrange(3), install_size=rng.getrandbits(40)))
+        elif k < 0.93:
+            # a further target-info chunk: what follows goes to the files of that platform
+            plat = rng.choice([0, 1, 2, 3, 4])
+            pn = zp.PLATFORM_NAMES[plat]
+            ops.append(dict(op="T", platform=plat, region=rng.choice([-1, 1])))
         elif k < 0.96:
             ops.append(dict(op="I", cmd=rng.choice([b"A", b"D"]), synonym=rng.randrange(2), main=main, sub=sub, fid=0, hash=rng.getrandbits(64), off=rng.getrandbits(20), num=3))
         else:
